@@ -4,8 +4,8 @@
    re-evaluated by the reference semantics in the correspondence run. *)
 From Coq Require Import List Arith Ring_theory.
 From GV.lib Require Import Semiring BigSum.
-From GV.model Require Import Linear Wfsa Det.
-From GV.proofs Require Import WfsaProofs DetProofs.
+From GV.model Require Import Linear Wfsa Det TrimW.
+From GV.proofs Require Import WfsaProofs DetProofs TrimWProofs.
 Import ListNotations.
 
 (* Weight pushing with the backward weights V (any field): every kept state's outgoing arc weights
@@ -35,3 +35,25 @@ Proof.
   unfold fwd. rewrite <- H. symmetry. apply (Ring_theory.SRmul_1_l (sth F)).
 Qed.
 Print Assumptions C13_determinize_invariant.
+
+(* Trimming (WFSA._trim restricted to a set of states; any semiring, any automaton incl. epsilon-free cyclic
+   ones): keeping a successor-closed set that contains the initial states changes no weight; dropping
+   states from which nothing is accepted changes no weight; hence trim (accessible, then co-accessible)
+   preserves the weight of every string. *)
+Theorem C13_trim_accessible : forall (S : SR) (m : wfsa S) (K : list nat), closed_succ S m K ->
+  (forall e, In e (winit m) -> inb (fst e) K = true) ->
+  forall xs, weight (wtrim K m) xs = weight m xs.
+Proof. intros; apply trim_accessible_weight; assumption. Qed.
+Print Assumptions C13_trim_accessible.
+
+Theorem C13_trim_dead : forall (S : SR) (m : wfsa S) (K : list nat), (forall q, inb q K = false -> dead S m q) ->
+  forall xs, weight (wtrim K m) xs = weight m xs.
+Proof. intros; apply trim_dead_weight; assumption. Qed.
+Print Assumptions C13_trim_dead.
+
+Theorem C13_trim_language : forall (S : SR) (m : wfsa S) (K1 K2 : list nat), closed_succ S m K1 ->
+  (forall e, In e (winit m) -> inb (fst e) K1 = true) ->
+  (forall q, inb q K2 = false -> dead S (wtrim K1 m) q) ->
+  forall xs, weight (wtrim K2 (wtrim K1 m)) xs = weight m xs.
+Proof. intros; apply trim_both_weight; assumption. Qed.
+Print Assumptions C13_trim_language.
